@@ -125,6 +125,9 @@ def run_shard(spec):
             if ("if_contains" in kind or "if_attribute_equal" in kind) and rnd.random() < 0.7:
                 g._numeric_prefix = False
                 q = g.action(0, 0, True) + "/attr_up/" + g.query(0, first=False, max_len=3)
+            elif "if_not_contains(abc)" in kind and rnd.random() < 0.6:
+                g._numeric_prefix = False
+                q = g.action(0, 0, True) + "/attr_low/" + g.query(0, first=False, max_len=3)
             else:
                 q = g.query(0)
             if rnd.random() < 0.15:
